@@ -173,19 +173,48 @@ def check_c18(prop, tier, seed):
         # every base also with its eval()-ed keys spelled "(a,b)"
         bases += [(1000 + i, fmt.respell(d, "tight"), n + "-respelled") for i, d, n in list(bases)
                   if n in ("tiny", "generated-0") or tier != "quick"]
+        # a base whose topology declares one link in one direction only (still a valid document)
+        for i, d, n in list(bases):
+            if n == "tiny":
+                ad = fmt.asymmetric_topology(d)
+                if ad is not None:
+                    bases.append((2000 + i, ad, n + "-one-directional-link"))
         mwd = os.path.join(wd, "mut")
         os.makedirs(mwd)
         muts, rgen = fmt.gen_mutants([(i, d) for i, d, n in bases], mwd)
         names = {i: n for i, d, n in bases}
-        lines, paths = [], []
+        lines, paths, primers, primer_lines = [], [], [], []
         for j, (bid, rule, pos, fgroup, rgroup, doc) in enumerate(muts):
             p = fmt.render_yaml(doc, os.path.join(wd, "m%d.yaml" % j))
             lines.append(dict(id=j + 1, kind="mutant", rule=rule, pos=pos, doc=doc, base=names[bid], fgroup=fgroup,
                               rgroup=rgroup))
             paths.append(p)
-        loaded = fmt.load_all(paths)
-        for ln, L in zip(lines, loaded):
+            if rule in fmt.UNKNOWN_NAME_RULES:
+                # the same document with the unknown name declared (valid), loaded first in the same process
+                pd = fmt.primer_of(doc)
+                primers.append(fmt.render_yaml(pd, os.path.join(wd, "p%d.yaml" % j)))
+                primer_lines.append(dict(id=0, kind="valid", rule="none", pos=0, doc=pd, base=names[bid],
+                                         loaded=dict(ok=True)))
+            else:
+                primers.append(None)
+        loaded = fmt.load_pairs(list(zip(primers, paths)))
+        pi_ = 0
+        for ln, L, pp in zip(lines, loaded, primers):
+            if pp:
+                primer_lines[pi_]["loaded"] = L.pop("primer_loaded")
+                pi_ += 1
             ln["loaded"] = L
+        # the primers are valid documents by the specification (machinery check; their loading is a C17 matter)
+        pwd_ = os.path.join(wd, "primers")
+        os.makedirs(pwd_)
+        for k_, pl in enumerate(primer_lines[:: max(1, len(primer_lines) // 40)]):
+            pl["id"] = k_ + 1
+        sample_primers = [pl for pl in primer_lines if pl["id"]]
+        if sample_primers:
+            _, pbad = fmt.check_lines(sample_primers, pwd_)
+            for b in pbad:
+                v.machinery.append("primer document %s is not valid by the specification (%s)" % (b[1], b[0]))
+        primers_refused = sum(1 for L in loaded if L.get("primer_ok") is False)
         cwd = os.path.join(wd, "chk")
         os.makedirs(cwd)
         r, bad = fmt.check_lines(lines, cwd)
@@ -215,6 +244,7 @@ def check_c18(prop, tier, seed):
                    distinct_nontrivial=len(per_rule), rules_in_catalogue=len(per_rule), bases=[n for _, _, n in bases],
                    mutants_per_rule=dict(per_rule), accepted_by_loader=dict(failed_rules),
                    mutants_failing_in_another_group=len(wrong_group), exhaustive=True,
+                   primed_mutants=sum(1 for p_ in primers if p_), primers_refused_by_loader=primers_refused,
                    rule="for every base document (shipped + TLC-generated) TLC enumerates base x rule x position of "
                         "the catalogue (ScenarioFormat!Break); each broken document is asserted ~Valid by the "
                         "specification, rendered to YAML and given to the real loader, which must raise; "
